@@ -80,6 +80,26 @@ benign("writer-pool-constructor", "thermal-writer buffer pool built by a helper 
 benign("limiter-core-helper", "log limiter body moved into a helper that Print and Printf call with the final text (correct refactor)",
        (LL, "func (limiter *LogLimiter) Print(s string) {\n\tnow := limiter.nowFunc()", "func (limiter *LogLimiter) Print(s string) {\n\tlimiter.emit(s)\n}\n\nfunc (limiter *LogLimiter) emit(s string) {\n\tnow := limiter.nowFunc()", False))
 
+benign("kernel-resliced-rows", "abs-diff kernel and one-frame counter range over re-sliced rows with both bounds (correct refactor)",
+       (MO, "\t\tfor x := d.start; x < d.columnStop; x++ {\n\t\t\tv := f1.Pix[y][x]\n\t\t\td.debug.update(\"diff\", int(v))", "\t\tfor _, v := range f1.Pix[y][d.start:d.columnStop] {\n\t\t\td.debug.update(\"diff\", int(v))", False),
+       (MO, "\t\tfor x := d.start; x < d.columnStop; x++ {\n\t\t\tva := a.Pix[y][x]\n\t\t\tif va < d.tempThresh {\n\t\t\t\tva = d.tempThresh\n\t\t\t}\n\t\t\tvb := b.Pix[y][x]\n\t\t\tif vb < d.tempThresh {\n\t\t\t\tvb = d.tempThresh\n\t\t\t}\n\t\t\tout.Pix[y][x] = absDiff(va, vb)",
+        "\t\trowA, rowB, rowOut := a.Pix[y][d.start:d.columnStop], b.Pix[y][d.start:d.columnStop], out.Pix[y][d.start:d.columnStop]\n\t\tfor x, va := range rowA {\n\t\t\tif va < d.tempThresh {\n\t\t\t\tva = d.tempThresh\n\t\t\t}\n\t\t\tvb := rowB[x]\n\t\t\tif vb < d.tempThresh {\n\t\t\t\tvb = d.tempThresh\n\t\t\t}\n\t\t\trowOut[x] = absDiff(va, vb)", False))
+
+benign("stop-reset-before-stop-call", "stopRecording resets its counters before calling the recorder and returns the recorder's error (correct reorder)",
+       (MP, "\terr := mp.recorder.StopRecording()\n\n\tmp.framesWritten = 0\n\tmp.writeUntil = 0\n\tmp.isRecording = false\n\tmp.triggered = 0\n\t// if it starts recording again very quickly it won't write the same frames again\n\tmp.frameLoop.SetAsOldest()\n\n\treturn err",
+        "\tmp.framesWritten = 0\n\tmp.writeUntil = 0\n\tmp.isRecording = false\n\tmp.triggered = 0\n\t// if it starts recording again very quickly it won't write the same frames again\n\tmp.frameLoop.SetAsOldest()\n\n\treturn mp.recorder.StopRecording()", False))
+
+benign("throttle-maybe-start-single-exit", "maybeStartRecording in single-exit form that still returns the wrapped error (correct refactor)",
+       (TH, "\tif throttler.bucket.Available() >= throttler.minRecordingLength {\n\t\tif err := throttler.recorder.StartRecording(background, tempThresh); err != nil {\n\t\t\treturn err\n\t\t}\n\t\tthrottler.recording = true\n\t}\n\treturn nil",
+        "\tvar err error\n\tif throttler.bucket.Available() >= throttler.minRecordingLength {\n\t\tif err = throttler.recorder.StartRecording(background, tempThresh); err == nil {\n\t\t\tthrottler.recording = true\n\t\t}\n\t}\n\treturn err", False))
+
+benign("throttle-config-logged", "throttle.NewConfig reads (does not write) the loaded settings for a log line",
+       ("throttle/config.go", "\treturn &thermalThrottler, nil", "\tif thermalThrottler.MinRefill > thermalThrottler.BucketSize {\n\t\tlog.Printf(\"min-refill %v is longer than bucket-size %v\", thermalThrottler.MinRefill, thermalThrottler.BucketSize)\n\t}\n\treturn &thermalThrottler, nil", False),
+       ("throttle/config.go", "import (\n", "import (\n\t\"log\"\n\n", False))
+
+benign("detector-reset-via-pointers", "detector Reset resets its two rings through pointers to the fields (correct form of the loop)",
+       (MO, "\td.flooredFrames.Reset()\n\td.diffFrames.Reset()", "\tfor _, loop := range []*FrameLoop{&d.flooredFrames, &d.diffFrames} {\n\t\tloop.Reset()\n\t}", False))
+
 here = os.path.dirname(os.path.abspath(__file__))
 for f in os.listdir(os.path.join(here, "benign")):
     os.unlink(os.path.join(here, "benign", f))
